@@ -5,6 +5,22 @@ sys.path.insert(0, os.path.dirname(os.path.abspath(__file__)))
 from _util import *
 
 
+def ref_classify(path):
+    """Independent reference (stdlib strict JSON + the property's root clause) on the text the command reads
+    (argparse opens the in-file in text mode, default encoding, errors='ignore'):
+    'syntax' = not JSON, 'scalar' = JSON whose root is neither object nor array, 'doc' = a document."""
+    try:
+        with open(path, 'r', errors='ignore') as f:
+            text = f.read()
+    except OSError:
+        return 'unreadable', None
+    try:
+        v = json.loads(text)
+    except ValueError:
+        return 'syntax', text
+    return ('doc' if isinstance(v, (dict, list)) else 'scalar'), text
+
+
 def run_one(c, base):
     d = tempfile.mkdtemp(prefix='cli_', dir=base)
     try:
@@ -15,9 +31,13 @@ def run_one(c, base):
             pass
         elif kind == 'directory':
             os.mkdir(inp)
+        elif c.get('bytes_hex') is not None:
+            with open(inp, 'wb') as f:
+                f.write(bytes.fromhex(c['bytes_hex']))
         else:
             with open(inp, 'w', encoding='utf-8') as f:
                 f.write(c['text'])
+        ref, ref_text = ref_classify(inp)
         if c.get('out_exists', True):
             with open(out, 'wb') as f:
                 f.write(c['existing'].encode('utf-8'))
@@ -27,7 +47,7 @@ def run_one(c, base):
         if c.get('ex'):
             args.append('-x')
         p = subprocess.run(args, capture_output=True, text=True, timeout=120, cwd=d, stdin=subprocess.DEVNULL)
-        r = {'rc': p.returncode, 'diagnostic': bool(p.stderr.strip()), 'stderr': p.stderr[-300:]}
+        r = {'rc': p.returncode, 'diagnostic': bool(p.stderr.strip()), 'stderr': p.stderr[-300:], 'ref': ref}
         if os.path.exists(out):
             after = open(out, 'rb').read()
             r['out_after'] = after.decode('utf-8', 'replace')
@@ -37,9 +57,9 @@ def run_one(c, base):
         before = c['existing'].encode('utf-8') if c.get('out_exists', True) else None
         r['out_intact'] = after == before
         r['stray_files'] = sorted(set(os.listdir(d)) - {'in.json', 'out.py'})
-        if c.get('valid'):
+        if c.get('valid') or (c.get('valid') is None and ref == 'doc'):
             from dataclass_wizard.wizard_cli.schema import PyCodeGenerator
-            code = PyCodeGenerator(file_contents=c['text'], force_strings=bool(c.get('fs')),
+            code = PyCodeGenerator(file_contents=ref_text, force_strings=bool(c.get('fs')),
                                    experimental=bool(c.get('ex'))).py_code
             r['inprocess_code'] = code
             r['out_equals_inprocess'] = after is not None and after.decode('utf-8', 'replace') == code
